@@ -92,6 +92,10 @@ def run_tests(d, tgt):
 
 
 ALL_PROPS = ['C%02d' % i for i in range(1, 21)]
+try:
+    EXPECTED = json.load(open(os.path.join(VERIF, 'benign', 'expected_fail_closed.json')))['entries']
+except Exception:
+    EXPECTED = {}
 
 
 def main():
@@ -156,10 +160,18 @@ def main():
                         if rc != 0:
                             noisy.append((prop, out))
                     status = 'silent' if not noisy else 'FALSE-ALARM'
+                    documented = EXPECTED.get(m['id'])
+                    if documented and noisy:
+                        status = 'fail-closed(documented)'
+                    elif documented and not noisy:
+                        status = 'NOW-SILENT'
                     print('%-22s %-34s %s' % (status, m['id'], ','.join(m['props']) if len(m['props']) < 20 else 'all'))
-                    for prop, out in noisy:
-                        bad += 1
-                        print('    ' + '\n    '.join(out.strip().splitlines()[-6:]))
+                    if status == 'FALSE-ALARM':
+                        for prop, out in noisy:
+                            bad += 1
+                            print('    ' + '\n    '.join(out.strip().splitlines()[-6:]))
+                    elif status == 'fail-closed(documented)':
+                        print('    %s: %s' % (','.join(p for p, o in noisy), documented[:160]))
                     results.append({'id': m['id'], 'kind': kind, 'props': m['props'], 'status': status})
             finally:
                 restore(saved)
